@@ -276,9 +276,9 @@ type c07Inst struct {
 	log     []*c07Inv
 	nonce   uint64
 
-	broken string // infrastructure failure while building / driving the fixture (never a violation)
-	key    string // state key after the last operation
-	pkey   string // the part of it that determines the outcome of an open (handlers + knowledge)
+	broken string           // infrastructure failure while building / driving the fixture (never a violation)
+	key    string           // state key after the last operation
+	pkey   string           // the part of it that determines the outcome of an open (handlers + knowledge)
 	saved  [2][]protocol.ID // what dialer k knew about L's protocols when the state was entered
 	savedL [2][]protocol.ID // what L knew about dialer k's protocols after the initial identify exchange (accurate for good: the dialers' handlers never change)
 	hist   []string
